@@ -2,6 +2,7 @@ SPECIFICATION TraceSpec
 CONSTANTS
   Orders = {3, 4}
   WideOrders = {3, 4}
+  SecondKeyOrders = "ends"
   SoftOrders = {3, 4}
 POSTCONDITION TraceAccepted
 CHECK_DEADLOCK FALSE
